@@ -242,10 +242,10 @@ class StaticResolver(object):
             import ipaddress
             ipaddress.ip_address(host)
             ip = host
-        except ValueError:
+        except (ValueError, TypeError):
             pass
-        family = socket.AF_INET6 if ':' in ip else socket.AF_INET
-        return ResolveResult([AddressInfo(ip, family, None, None)])
+        ips = ip if isinstance(ip, (list, tuple)) else [ip]
+        return ResolveResult([AddressInfo(i, socket.AF_INET6 if ':' in i else socket.AF_INET, None, None) for i in ips])
 
 
 # ------------------------------------------------------------------------------ HTTP script peer
